@@ -1278,6 +1278,11 @@ class Machine:
             return ExcValue(f.name, args[0] if args else "")
         if callable(f) and getattr(f, "_pyvc_callee", False):
             return f(self, args, kwargs)
+        h = getattr(self.c, "call_hook", None)
+        if h is not None:
+            r = h(self, f, args, kwargs)
+            if r is not NotImplemented:
+                return r
         raise Unsupported("call of %r (line %d)" % (f, self.curline))
 
     def call_closure(self, f, args, kwargs):
